@@ -35,8 +35,10 @@ CLAIMS.update({
         text="Proof (for every number type incl. IEEE doubles, every tree of any depth): parsing the token sequence of a tree consumes it entirely and the "
              "interpreter returns the textbook value (parse_eval; explicit fuel bound 4*len+5 <= parseFuel proved sufficient), missing_token_adder leaves it "
              "unchanged unless a sign stands at its start position (post_stable; that case is `line_eval_partial`'s hypothesis and is decided by "
-             "correspondence), side-by-side literals add (adjacent_add), and over Rat a sign negates / division by zero yields 0. String level "
-             "(every spacing lexes to that token sequence; k..Y suffixes) is decided by enumeration: tree evaluated with doubles in tree order must "
+             "correspondence), side-by-side literals add (adjacent_add), and over Rat a sign negates / division by zero yields 0. String level: "
+             "for the arithmetic sub-language every spacing of a line lexes to its pieces' tokens (SCP.Lex.lex_render, lex_spacing_irrelevant, "
+             "tree_line_eval over the scanner model codeLex, which is compared token for token with the implementation's lexer on generated and hostile "
+             "lines under 4 separator conventions); k..Y suffixes and the rest by enumeration: tree evaluated with doubles in tree order must "
              "equal the implementation bit-for-bit. Eight arithmetic defects found this way were repaired in /repo.",
         note="Trusted: Lean kernel + 3 standard axioms; regex layer / lexer glue not modelled (exercised by every generated line); model tied by line-level correspondence on the implementation's own lexed tokens (values, raw tokens).",
         ref="§7 C02"),
@@ -197,7 +199,8 @@ CLAIMS.update({
              "(findMatch_case by induction over the scan with arbitrary accumulators; findMatch_offsets for pure shifts); replacing the matched "
              "range keeps the lines related (replaceRange_tokens); currency names, variable-name search and the session key of a name are "
              "case-insensitive (readCurrency_case, infoEqTok_case, matchesAt_case, findLocation_case, varKey_case); a type-less token inside a "
-             "line neither matches nor resets a pattern (untyped_skipped). That the regexes produce Sim-related tokens for a line and its noisy "
+             "line neither matches nor resets a pattern (untyped_skipped); for the arithmetic sub-language extra blanks provably do not change the lexed tokens "
+             "(SCP.Lex.lex_spacing_irrelevant). That the regexes produce Sim-related tokens for a line and its noisy "
              "variant (month / zone lookup on case-mapped copies, comment and blank recognition) is string level and decided by the metamorphic "
              "run: blanks x comments from a hostile pool x four case patterns of every keyword class x all value kinds, values compared exactly; "
              "blank / comment-only lines give an empty slot. One defect repaired in /repo (month name inside a comment).",
